@@ -16,6 +16,8 @@ pub mod c12;
 pub mod c13;
 pub mod c14;
 pub mod c15;
+pub mod c16;
+pub mod c17;
 pub mod c19;
 
 pub type MonFn = fn(&mut Ctx);
@@ -56,6 +58,13 @@ pub fn registry() -> Vec<(&'static str, &'static str, MonFn)> {
         ("c12_natural", "C12", c12::natural as MonFn),
         ("c12_satcount", "C12", c12::satcount as MonFn),
         ("c12_cache", "C12", c12::cache as MonFn),
+        ("c16_map_exh", "C16", c16::map_exhaustive as MonFn),
+        ("c16_map_rand", "C16", c16::map_random as MonFn),
+        ("c16_map_leak", "C16", c16::map_leak as MonFn),
+        ("c16_mgr", "C16", c16::manager as MonFn),
+        ("c17_exh", "C17", c17::exhaustive as MonFn),
+        ("c17_rand", "C17", c17::random as MonFn),
+        ("c17_case", "C17", c17::single as MonFn),
         ("c02_pairs", "C02", c02::pairs as MonFn),
     ]
 }
